@@ -110,6 +110,19 @@ def run(tier, seed):
                 b[k * slot + 9] = rng.choice([0x3D, 0x99, 0x07])
                 return r, bytes(b)
             per = [[(special_slot(r, p) if rng.random() < 0.2 else (r, p)) for r, p in pk] for pk in per]
+            # a continuation page (pages counter != 0) whose FEE id / orbit / trigger type differs from the page before: the running check
+            # quotes both values in its message -- the current one must be the one stored at the reported offset (seed C07-L)
+            def field_change(r):
+                b = bytearray(r)
+                what = rng.choice(["fee", "fee", "orbit", "trigger"])
+                if what == "fee":
+                    b[2] ^= rng.choice([1, 2, 6])
+                elif what == "orbit":
+                    b[20 + rng.randrange(4)] ^= 1 << rng.randrange(8)
+                else:
+                    b[32] ^= rng.choice([0x10, 0x04, 0x40])
+                return bytes(b)
+            per = [[((field_change(r), p) if (r[36:38] != b"\x00\x00" and rng.random() < 0.3) else (r, p)) for r, p in pk] for pk in per]
         # some packets without any payload (offset_to_next = 64), not last in the file
         def strip(r):
             b = bytearray(r)
@@ -194,6 +207,15 @@ def run(tier, seed):
                     if got != exp:
                         chk.spec_violations.append(dict(desc, message=first[:200], offset="0x%X" % off, row=got, header_at_offset=exp,
                                                         what="header fields quoted in the `current :` row are not those stored at the reported offset"))
+                # ... and the values the running-check message itself quotes for the CURRENT header (`X changed from <previous> to <current>`)
+                # are the fields stored at the reported offset: FEE id = bytes 2..3, orbit = bytes 20..23, trigger type = bytes 32..35 (seed C07-L)
+                if ent[0] == "rdh":
+                    for label, lo, n in (("FeeId", 2, 2), ("Orbit", 20, 4), ("Trigger type", 32, 4)):
+                        mm = re.search(label + r" changed from 0x([0-9A-Fa-f]+) to 0x([0-9A-Fa-f]+)\.", first)
+                        if mm and int(mm.group(2), 16) != int.from_bytes(ent[1][lo:lo + n], "little"):
+                            chk.spec_violations.append(dict(desc, message=first[:240], offset="0x%X" % off, field=label, quoted_current="0x" + mm.group(2),
+                                                            stored_at_offset="0x%X" % int.from_bytes(ent[1][lo:lo + n], "little"),
+                                                            what="a header field quoted in the running-check message is not the value stored at the reported offset"))
             elif code == 0 and "Payload error following RDH" in first and ent[0] != "rdh":
                 chk.spec_violations.append(dict(desc, message=first[:200], offset="0x%X" % off, what="payload error not located at an RDH"))
             if len(samples) < 4 and dump:
